@@ -80,6 +80,74 @@ pub fn check(case: &Case, st: &mut Stats) -> Result<(), String> {
     Ok(())
 }
 
+// ---------------------------------------------------------------------------
+// forwarding: the line the tree builder passes on through TreeSink::set_current_line
+
+/// TokenSink between the tokenizer and html5ever's tree builder: publishes the line of the token
+/// being processed, so that the sink can compare it with the last forwarded line at every call.
+struct LineTap<S: html5ever::tokenizer::TokenSink> {
+    inner: S,
+    now: std::rc::Rc<std::cell::Cell<u64>>,
+}
+
+impl<S: html5ever::tokenizer::TokenSink> html5ever::tokenizer::TokenSink for LineTap<S> {
+    type Handle = S::Handle;
+    fn process_token(&self, token: html5ever::tokenizer::Token, line_number: u64) -> html5ever::tokenizer::TokenSinkResult<S::Handle> {
+        self.now.set(line_number);
+        self.inner.process_token(token, line_number)
+    }
+    fn end(&self) {
+        self.inner.end()
+    }
+    fn adjusted_current_node_present_but_not_in_html_namespace(&self) -> bool {
+        self.inner.adjusted_current_node_present_but_not_in_html_namespace()
+    }
+}
+
+/// Parse a document into ModelDom through the tap; Err = a TreeSink call saw a stale line.
+pub fn check_forwarding(tc: &crate::gen::cases::TreeCase, st: &mut Stats) -> Result<(), String> {
+    use html5ever::tokenizer::{BufferQueue, Tokenizer};
+    use html5ever::tree_builder::TreeBuilder;
+    st.eval();
+    let now = std::rc::Rc::new(std::cell::Cell::new(1u64));
+    let mut sink = crate::sinks::model::ModelDom::new();
+    sink.line_expect = Some(now.clone());
+    let opts = crate::sinks::drive::opts_of(&tc.cfg);
+    let tb = TreeBuilder::new(sink, opts.tree_builder);
+    let tok = Tokenizer::new(LineTap { inner: tb, now: now.clone() }, opts.tokenizer);
+    let q = BufferQueue::default();
+    for c in &tc.chunks {
+        q.push_back(tendril::StrTendril::from(c.as_str()));
+        let mut guard = 0;
+        while !matches!(tok.feed(&q), markup5ever::TokenizerResult::Done) {
+            guard += 1;
+            if guard > 100_000 {
+                return Err("feed() keeps suspending".into());
+            }
+        }
+    }
+    tok.end();
+    let dom = &tok.sink.inner.sink;
+    if let Some(m) = dom.line_mismatch.borrow().clone() {
+        return Err(format!("{m}; chunks {:?}", tc.chunks));
+    }
+    let breaks = tc.input.matches('\n').count() + tc.input.matches('\r').count();
+    if breaks > 0 && !dom.errors.borrow().is_empty() {
+        st.label("forwarding: parse errors in an input with line breaks");
+        st.nontrivial(hash64(tc), || serde_json::to_value(tc).unwrap());
+    }
+    Ok(())
+}
+
+fn decode_forwarding(s: &mut Src) -> crate::gen::cases::TreeCase {
+    let mut tc = crate::gen::cases::gen_tree_case(s, false, 24);
+    tc.input = add_breaks(s, &tc.input);
+    let n = tc.input.chars().count();
+    let cuts = chunks::gen_cuts(s, n);
+    tc.chunks = chunks::chunk_str(&tc.input, &cuts);
+    tc
+}
+
 const SIGMA9: &[char] = &['<', 'a', '=', '"', '>', '&', '-', '!', '\n', '\r', ' '];
 const SUFFIX9: &[char] = &['\n', '\r', 'a', '>', ' ', '"', '-', ';', '='];
 
@@ -107,6 +175,10 @@ fn add_breaks(s: &mut Src, text: &str) -> String {
     for c in cs {
         if s.chance(rate) {
             out.push_str(*s.pick(&["\n", "\r", "\r\n", "\n\n", "\r\r", "\n\r"]));
+            if s.chance(40) {
+                // characters next to LF in value, or line separators elsewhere: never line breaks
+                out.push_str(*s.pick(&["\u{b}", "\t", "\x0C", "\u{b}\u{b}", "\u{85}", "\u{2028}", "\u{1}", "\u{e}"]));
+            }
         }
         out.push(c);
     }
@@ -124,7 +196,7 @@ pub fn decode_random(s: &mut Src) -> Case {
         let mut run = String::new();
         let n = s.range(16, 80);
         for _ in 0..n {
-            run.push(*s.pick(&['a', 'b', ' ', '\n', '\r', 'é', '<', '&']));
+            run.push(*s.pick(&['a', 'b', ' ', '\n', '\r', 'é', '<', '&', '\n', '\u{b}', '\t', '\x0C', 'c', 'd']));
         }
         let at = s.below(tc.input.chars().count() + 1);
         let cs: Vec<char> = tc.input.chars().collect();
@@ -138,7 +210,7 @@ pub fn decode_random(s: &mut Src) -> Case {
 
 pub fn run(ctx: &Ctx) -> Report {
     let mut rep = Report::new(
-        "Oracle: for inputs on which html5ever's token stream equals the reference tokenizer's (otherwise the case is C01's and is counted as excluded), every tag, comment and doctype token's line must equal 1 + the number of LF in the newline-normalised prefix the reference had consumed when it emitted that token; the EOF token's line must equal 1 + the line breaks of the whole input; lines never decrease and never exceed that maximum. Search: (1) every string of length <= L over {< a = \" > & - ! LF CR SPACE} from Data under every partition into chunks; (2) every C01 start (24 cold states, ~100 priming prefixes reaching every tokenizer state) + every suffix of length <= 3 over {LF CR a > SPACE \" - ; =}, under every placement of chunk cuts inside the suffix; (3) random token soup with line breaks (LF, CR, CRLF, doubled) inserted at random rates, >=16-byte runs for the SIMD path, random chunkings, default and exact_errors options. Non-trivial: the reference consumed a line feed in a state other than Data; distinct by hash of (case, chunks).",
+        "Oracle: for inputs on which html5ever's token stream equals the reference tokenizer's (otherwise the case is C01's and is counted as excluded), every tag, comment and doctype token's line must equal 1 + the number of LF in the newline-normalised prefix the reference had consumed when it emitted that token; the EOF token's line must equal 1 + the line breaks of the whole input; lines never decrease and never exceed that maximum. Search: (1) every string of length <= L over {< a = \" > & - ! LF CR SPACE} from Data under every partition into chunks; (2) every C01 start (24 cold states, ~100 priming prefixes reaching every tokenizer state) + every suffix of length <= 3 over {LF CR a > SPACE \" - ; =}, under every placement of chunk cuts inside the suffix; (3) random token soup with line breaks (LF, CR, CRLF, doubled) inserted at random rates, >=16-byte runs for the SIMD path, random chunkings, default and exact_errors options; (4) forwarding: grammar-generated documents with line breaks parsed by html5ever's tree builder behind a tap that publishes the line of the token being processed - every TreeSink call (parse_error included) must find the last set_current_line value equal to it. Non-trivial: the reference consumed a line feed in a state other than Data; distinct by hash of (case, chunks).",
     );
     rep.assume("line-number expectation is asserted for tag/comment/doctype/EOF tokens only; character and error tokens are bracketed by monotonicity (their emission point involves look-ahead the standard leaves open)");
     report_known(ctx, &mut rep, &|v| replay(&ctx.strict_clone(), v));
@@ -205,6 +277,10 @@ pub fn run(ctx: &Ctx) -> Report {
     // (3)
     let out = run_random(ctx.seed, ctx.tier.pick(2_000_000, 30_000_000), 400, decode_random, check);
     rep.absorb(out);
+    // (4) forwarding through the tree builder
+    let out = run_random(ctx.seed ^ 0x94, ctx.tier.pick(400_000, 6_000_000), 1500, decode_forwarding, check_forwarding);
+    rep.absorb(out);
+    rep.need("forwarding: parse errors in an input with line breaks", 1000);
     for s in [
         "LF consumed in BeforeAttrValue",
         "LF consumed in AttrValueDq",
@@ -224,7 +300,12 @@ pub fn run(ctx: &Ctx) -> Report {
 }
 
 pub fn replay(_ctx: &Ctx, v: &Value) -> Result<(), String> {
-    let case: Case = serde_json::from_value(v.clone()).map_err(|e| format!("bad case: {e}"))?;
     let mut st = Stats::default();
+    if v.get("cfg").is_some() {
+        // a forwarding case (TreeCase)
+        let tc: crate::gen::cases::TreeCase = serde_json::from_value(v.clone()).map_err(|e| format!("bad case: {e}"))?;
+        return check_forwarding(&tc, &mut st);
+    }
+    let case: Case = serde_json::from_value(v.clone()).map_err(|e| format!("bad case: {e}"))?;
     check(&case, &mut st)
 }
